@@ -644,7 +644,7 @@ impl BuiltInFunction {
                     l.reify(&heap.borrow()).as_list()?.len() as f64
                 )),
                 Value::String(s) => Ok(Value::Number(
-                    s.reify(&heap.borrow()).as_string()?.len() as f64
+                    s.reify(&heap.borrow()).as_string()?.chars().count() as f64,
                 )),
                 _ => Err(RuntimeError::from("argument must be a list or string")),
             },
@@ -660,9 +660,9 @@ impl BuiltInFunction {
                     let val = {
                         p.reify(&heap.borrow())
                             .as_string()?
-                            .get(0..1)
-                            .unwrap_or("")
-                            .to_string()
+                            .chars()
+                            .take(1)
+                            .collect::<String>()
                     };
 
                     Ok(heap.borrow_mut().insert_string(val))
@@ -686,9 +686,9 @@ impl BuiltInFunction {
                     let val = {
                         s.reify(&heap.borrow())
                             .as_string()?
-                            .get(1..)
-                            .unwrap_or("")
-                            .to_string()
+                            .chars()
+                            .skip(1)
+                            .collect::<String>()
                     };
 
                     Ok(heap.borrow_mut().insert_string(val))
@@ -718,9 +718,13 @@ impl BuiltInFunction {
                             args[0].as_string(borrowed_heap)?.to_string()
                         };
 
-                        s.get(start..end)
-                            .map_or(Err(RuntimeError::from("index out of bounds")), |s| {
-                                Ok(heap.borrow_mut().insert_string(s.to_string()))
+                        let chars: Vec<char> = s.chars().collect();
+                        chars
+                            .get(start..end)
+                            .map_or(Err(RuntimeError::from("index out of bounds")), |cs| {
+                                Ok(heap
+                                    .borrow_mut()
+                                    .insert_string(cs.iter().collect::<String>()))
                             })
                     }
                     _ => Err(RuntimeError::from("argument must be a list or string")),
